@@ -19,7 +19,9 @@ RULE = ('(a) random sequences of {logging <module|.> <level>, emit(module, level
 ASSUMPTIONS = ['level names are matched case-insensitively and numeric levels are accepted (implementation convenience, '
                'modelled as the corresponding level); unknown names must be refused and change nothing',
                'the clock of mlzlog is replaced by a shim (strftime/time/localtime/mktime)',
-               'removal or survival of foreign files in the log directory is recorded, not judged']
+               'removal or survival of unrelated foreign files in the log directory is recorded, not judged; files named like a '
+               'log file of the handler plus a suffix (.gz, ~, .1) are not log files: they neither count for the retention '
+               'nor may they be removed']
 REQUIRED = ['routing_sequences', 'emits', 'deliveries_expected', 'silences_expected', 'resets', 'invalid_level_requests',
             'rotations', 'rotations_with_surplus']
 
@@ -227,6 +229,11 @@ class Rotation:
             with open(os.path.join(sub, f'{name}-{(today - datetime.timedelta(days=a)).strftime("%Y-%m-%d")}.log'), 'w') as f:
                 f.write('old\n')
         foreign = rng.sample(['README', 'zz-notes.txt', 'aaa.log', f'{name}.pid', 'other-2024-01-01.log', '~backup'], rng.choice([0, 0, 1, 2]))
+        # near misses: names that start like a log file of this handler but are something else (archives, editor backups)
+        if rng.random() < 0.4:
+            for _ in range(rng.choice([1, 2, 3])):
+                a = rng.randint(0, 45)
+                foreign.append(f'{name}-{(today - datetime.timedelta(days=a)).strftime("%Y-%m-%d")}.log' + rng.choice(['.gz', '~', '.1', '.bak', 'x']))
         for fn in foreign:
             with open(os.path.join(sub, fn), 'w') as f:
                 f.write('foreign\n')
@@ -280,6 +287,10 @@ class Rotation:
                         return
                 for f in removed:
                     if f not in dated_before and f != 'current':
+                        if f.startswith(name + '-'):
+                            # not a log file of this handler (the name does not end in .log): only older LOG files may go
+                            r.violation('C20/rotation/foreign-file-removed', f'retention {keep}: {f} is not a log file of this handler but was removed', case)
+                            return
                         r.count('foreign_files_removed')     # recorded, not judged
             r.case(('rotation', ndated, len(foreign), keep, nrot), surplus)
             if r.want_sample() and surplus:
